@@ -285,3 +285,177 @@ def _key_determines_fill(prog, rule, c, sc):
             rule.fail('MaterialIndexer._set_cache', 'key-projection',
                       'the shared index cache is filled from %s (in %s) but the registry key %s holds only a projection of %s: indexers whose %s '
                       'differ elsewhere (groups, aliases, order) share one lookup dict' % (ch, f.qualname, elems, root, root), sc, sc.node)
+
+
+# ---------------------------------------------------------------------------------------------------------------
+# stores on an instance created in the same function must be storable
+
+def _injected_properties(prog):
+    """class decorators of the form  def deco(cls): cls.NAME = obj; ...; return cls  where obj is a module-level
+    @property function: {decorator name: {NAME: has_setter}}"""
+    out = {}
+    for m in prog.modules.values():
+        props = {}
+        for st in m.tree.body:
+            if isinstance(st, ast.FunctionDef):
+                decs = [src(d) for d in st.decorator_list]
+                if 'property' in decs:
+                    props.setdefault(st.name, False)
+                for d in decs:
+                    if d.endswith('.setter'):
+                        props[d[:-7]] = True
+        for st in m.tree.body:
+            if isinstance(st, ast.FunctionDef) and st.args.args and not st.decorator_list:
+                p0 = st.args.args[0].arg
+                inj = {}
+                for n in walk_no_nested(st):
+                    if isinstance(n, ast.Assign) and len(n.targets) == 1 and isinstance(n.targets[0], ast.Attribute) \
+                            and src(n.targets[0].value) == p0 and isinstance(n.value, ast.Name) and n.value.id in props:
+                        inj[n.targets[0].attr] = props[n.value.id]
+                if inj and any(isinstance(n, ast.Return) and src(n.value) == p0 for n in walk_no_nested(st)):
+                    out[st.name] = inj
+    return out
+
+
+def _injectable_names(prog, modelled=()):
+    """every attribute name that some function of the package binds on a class object it receives (cls.NAME = ...,
+    setattr(cls, ...)): a class with a decorator the model does not resolve may get any of them re-bound"""
+    names = set()
+    for f in prog.all_functions():
+        if not f.params:
+            continue
+        p0 = f.params[0]
+        if p0 == 'self' or (f.cls is None and f.name in modelled):
+            continue
+        for n in walk_no_nested(f.node):
+            if isinstance(n, ast.Attribute) and isinstance(n.ctx, ast.Store) and src(n.value) == p0:
+                names.add(n.attr)
+    return names
+
+
+def _deco_name(d):
+    """`utils.chemicals_user` and `chemicals_user` name the same decorator; a call form stays opaque"""
+    if isinstance(d, ast.Attribute):
+        return d.attr
+    return src(d)
+
+
+def storable_attributes(prog, rule, rels=None):
+    """x = K.__new__(K) ; x.attr = v  raises AttributeError when attr is a property without a setter anywhere in K's
+    MRO, or when every class of the MRO declares __slots__ and none lists attr.  Such a function can never return."""
+    inj = _injected_properties(prog)
+    injectable = _injectable_names(prog, set(inj))
+    n_sites = 0
+
+    def opaque_decorators(c):
+        return [src(d) for k in c.mro() for d in k.node.decorator_list if _deco_name(d) not in inj]
+
+    def prop_info(c):
+        """name -> has_setter for the properties visible on instances of c (most derived definition wins)"""
+        info = {}
+        for k in reversed(c.mro()):
+            for d in k.node.decorator_list:
+                for nm, hs in inj.get(_deco_name(d), {}).items():
+                    info[nm] = hs
+            for nm, f in k.methods.items():
+                if f.kind == 'getter':
+                    info[nm] = nm in k.setters
+                elif nm in info:
+                    info.pop(nm)
+            for nm in k.setters:
+                if nm in info:
+                    info[nm] = True
+            for nm in k.aliases:
+                if nm in info and nm not in k.methods:
+                    info.pop(nm)       # re-bound at class level to something else
+        return info
+
+    def own_slots(k, depth=0):
+        if k.slots is not None:
+            return set(k.slots)
+        e = k.aliases.get('__slots__')
+        if e is None or depth > 5 or not isinstance(e, (ast.Tuple, ast.List)):
+            return None
+        out = set()
+        for x in e.elts:
+            if isinstance(x, ast.Constant) and isinstance(x.value, str):
+                out.add(x.value)
+            elif isinstance(x, ast.Starred) and isinstance(x.value, ast.Attribute) and x.value.attr == '__slots__' \
+                    and isinstance(x.value.value, ast.Name) and x.value.value.id in k.module.classes:
+                sub = own_slots(k.module.classes[x.value.value.id], depth + 1)
+                if sub is None:
+                    return None
+                out |= sub
+            else:
+                return None
+        return out
+
+    def slot_set(c):
+        s = set()
+        for k in c.mro():
+            ks = own_slots(k)
+            if ks is None:
+                return None
+            unresolved = [b for b in k.base_exprs if b not in ('object',)]
+            if len(k.bases) < len(unresolved):
+                return None
+            s |= ks
+        return s
+    for f in prog.all_functions():
+        if rels and f.module.rel not in rels:
+            continue
+        fresh = {}
+        own = {'self.__class__', 'type(self)'}          # expressions denoting the (dynamic) class of self
+        if f.params and (f.kind == 'class' or f.name in ('__new__', '__init_subclass__', '__class_getitem__')):
+            own.add(f.params[0])
+        for n in walk_no_nested(f.node):
+            if isinstance(n, ast.Assign) and len(n.targets) == 1 and isinstance(n.targets[0], ast.Name) and src(n.value) in ('self.__class__', 'type(self)'):
+                own.add(n.targets[0].id)
+        for n in walk_no_nested(f.node):
+            if isinstance(n, ast.Assign) and len(n.targets) == 1 and isinstance(n.targets[0], ast.Name) and isinstance(n.value, ast.Call):
+                fn = src(n.value.func)
+                k = None
+                if (fn.endswith('.__new__') or fn == '_new') and n.value.args:
+                    a0 = src(n.value.args[0])
+                    if a0 in own and f.cls is not None:
+                        k = (f.cls, False)
+                    elif a0 in f.module.classes:
+                        k = (f.module.classes[a0], True)
+                if k:
+                    fresh[n.targets[0].id] = k
+        if not fresh:
+            continue
+        for n in walk_no_nested(f.node):
+            if not (isinstance(n, ast.Attribute) and isinstance(n.ctx, ast.Store) and isinstance(n.value, ast.Name) and n.value.id in fresh):
+                continue
+            c, exact = fresh[n.value.id]
+            n_sites += 1
+            info = prop_info(c)
+            cons = f.qualname
+            if n.attr in injectable and opaque_decorators(c):
+                rule.skip(cons, '%s.%s may be re-bound by the class decorator %s' % (n.value.id, n.attr, opaque_decorators(c)[0]), f, n)
+                continue
+            if n.attr in info:
+                if info[n.attr]:
+                    rule.ok(cons, '%s.%s: property with a setter' % (n.value.id, n.attr), f, n)
+                    continue
+                # a subclass may add the setter when the class is only known as cls / self.__class__
+                if not exact and any(n.attr in k.setters for m in prog.modules.values() for k in m.classes.values() if c in k.mro()):
+                    rule.ok(cons, '%s.%s: a subclass defines the setter' % (n.value.id, n.attr), f, n)
+                    continue
+                rule.fail(cons, 'read-only-property-' + n.attr,
+                          'stores to .%s of a new %s, but %s is a property without a setter there: the statement always raises AttributeError, '
+                          'so %s can never return' % (n.attr, c.name, n.attr, f.qualname), f, n)
+                continue
+            ss = slot_set(c)
+            if ss is not None and not exact:
+                for m_ in prog.modules.values():
+                    for k_ in m_.classes.values():
+                        if c in k_.mro() and k_ is not c:
+                            s2 = slot_set(k_)
+                            ss = None if (s2 is None or ss is None) else ss | s2
+            if ss is not None and n.attr not in ss:
+                rule.fail(cons, 'not-a-slot-' + n.attr, 'stores to .%s of a new %s, whose classes all declare __slots__ without it: AttributeError' % (n.attr, c.name), f, n)
+                continue
+            rule.ok(cons, '%s.%s is storable on a new %s' % (n.value.id, n.attr, c.name), f, n)
+    return n_sites
